@@ -30,6 +30,7 @@ func init() {
 			{ID: "C13.7", Desc: "the window sum (lifetime + stale-if-error) and the age sum saturate", Run: func(c *Ctx) { ruleDurationSums(c, "C13.7") }, MinSites: 2},
 			{ID: "C13.6", Desc: "otherwise the failure is returned", Run: ruleC13_6, MinSites: 2},
 			{ID: "C13.10", Desc: "a stale-if-error value too large to represent saturates instead of being ignored", Run: func(c *Ctx) { ruleSaturation(c, "C13.10") }, MinSites: 2},
+			{ID: "C13.11", Desc: "the freshness record used for the stale-if-error window is the stored response's own (never the made-up record of a request max-age=0)", Run: func(c *Ctx) { ruleC11_2(c); renameRule(c, "C11.2", "C13.11") }, MinSites: 1},
 		},
 	})
 }
